@@ -19,6 +19,7 @@ import (
 	"storj.io/drpc/drpcstream"
 
 	"verifharness/census"
+	"verifharness/director"
 	"verifharness/payload"
 	"verifharness/prog"
 	"verifharness/refwire"
@@ -334,9 +335,114 @@ func rawServer(id string, seed uint64) runner.Result {
 	return res
 }
 
+// finishRace: the context of the first RPCs is cancelled exactly while their stream is being marked
+// finished (the usual "defer cancel()" racing the end of the call); the connection stays healthy. A
+// later RPC then has operations pending on both sides when the transport dies.
+func finishRace(id string, seed uint64) runner.Result {
+	base := census.IDs(census.Snapshot())
+	r := &payload.SplitMix{S: seed}
+	cfg := prog.GenConfig(r, false)
+	nfirst := 1 + r.Intn(2)
+	var all []*prog.Script
+	for i := 0; i < nfirst; i++ {
+		s := prog.GenClean(r, uint64(i+1), cfg)
+		all = append(all, s)
+	}
+	last := &prog.Script{Tag: uint64(nfirst + 1), Client: []prog.Act{{Op: 's', Size: 20}, {Op: 'r'}, {Op: 'R'}}, Handler: []prog.Act{{Op: 'r'}, {Op: 's', Size: 30}, {Op: 'R'}}}
+	all = append(all, last)
+	x := prog.New(cfg, all)
+	var parks []*director.Park
+	for i := 0; i < nfirst; i++ {
+		parks = append(parks, x.Rig.Dir.ParkAt("stream.fin", x.Rig.Pair.A, i+1))
+	}
+	x.Start([][]*prog.Script{all})
+	raced := 0
+	for i, p := range parks {
+		st, _ := census.QuiesceOr(p.Reached(), rig.Watchdog)
+		if st == "ready" {
+			census.Quiesce(rig.Watchdog)
+			x.Log(uint64(i + 1)).CancelRPC()
+			census.Quiesce(rig.Watchdog)
+			raced++
+		}
+		p.Release()
+	}
+	st := x.WaitClients() // quiescent: the last RPC has a receive pending on both sides
+	desc := fmt.Sprintf("%s | %d RPC(s) whose context is cancelled while their stream finishes, then an RPC with receives pending on both sides", cfg.Desc, nfirst)
+	if st == "watchdog" {
+		x.Rig.Teardown()
+		return runner.Inconcl(id, "watchdog: "+desc)
+	}
+	if rig.IsClosed(x.Rig.Conn.Closed()) || !x.Log(last.Tag).ClientStart {
+		// the cancel was not "clean" (stream not finished yet): the connection was closed legitimately
+		x.Rig.Teardown()
+		return runner.Hold(id, "the raced cancel closed the connection before the last RPC: "+desc, false)
+	}
+	how := r.Intn(3)
+	switch how {
+	case 0:
+		x.Rig.Pair.B.Reset()
+	case 1:
+		x.Rig.Pair.A.Reset()
+	case 2:
+		x.Rig.Pair.B.Close()
+	}
+	desc += fmt.Sprintf("; transport ended by %s", []string{"server-side reset", "client-side reset", "server-side close"}[how])
+	_, snap := census.Quiesce(rig.Watchdog)
+	var fails []string
+	for _, l := range x.Logs() {
+		for _, e := range l.Snapshot() {
+			if !e.Returned {
+				fails = append(fails, fmt.Sprintf("rpc %d %c:%s is still blocked at quiescence after the transport failed", l.Script.Tag, e.Side, e.Op))
+			}
+		}
+		if ran, done := l.HandlerState(); ran && !done {
+			fails = append(fails, fmt.Sprintf("handler of rpc %d has not returned at quiescence", l.Script.Tag))
+		}
+	}
+	if len(fails) > 0 {
+		fails = append(fails, census.Dump(census.InDRPC(snap)))
+	} else {
+		if !rig.IsClosed(x.Rig.Conn.Closed()) {
+			fails = append(fails, "after the fault the client connection does not report closed")
+		}
+		if !x.Rig.ServeOp.Returned() {
+			fails = append(fails, "after the fault ServeOne has not returned")
+		}
+	}
+	cl := rig.Go("conn.Close", func() (interface{}, error) { return nil, x.Rig.Conn.Close() })
+	x.Rig.StopServe()
+	if !cl.Wait() {
+		fails = append(fails, "Conn.Close does not return after the fault")
+	}
+	x.Rig.Pair.A.Close()
+	x.Rig.Pair.B.Close()
+	_, snap = census.Quiesce(rig.Watchdog)
+	if left := census.NewSince(census.InDRPC(snap), base); len(left) > 0 && len(fails) == 0 {
+		fails = append(fails, "library goroutines left behind after the failure and Close:\n"+census.Dump(left))
+	}
+	x.Rig.Teardown()
+	if len(fails) > 0 {
+		return runner.Violation(id, "fault:finish-race:"+keyOf(fails[0]), desc+"\n"+strings.Join(fails, "\n"))
+	}
+	res := runner.Hold(id, desc, raced > 0)
+	res.Events = int64(raced)
+	res.Stats = map[string]int64{"cancel_while_finishing": int64(raced)}
+	return res
+}
+
 func gen(tier string, seed uint64) []runner.Scenario {
 	var out []runner.Scenario
 	nraw := 300
+	nrace := 60
+	if tier == "thorough" {
+		nrace = 3000
+	}
+	for i := 0; i < nrace; i++ {
+		i := i
+		id := fmt.Sprintf("finish-race/%d", i)
+		out = append(out, runner.Scenario{ID: id, Run: func() runner.Result { return finishRace(id, payload.Hash(seed, 0xC05B, uint64(i))) }})
+	}
 	if tier == "thorough" {
 		nraw = 20000
 	}
@@ -408,7 +514,7 @@ func main() {
 	runner.Main(runner.Check{
 		Property: "C05",
 		Level:    "fault_enumeration",
-		Rule:     "fault points: for each of 12 deterministic workloads (unary small / multi-frame / with metadata / failing handler, client-, server-, bidirectional streams, failing bidi, two RPCs on one connection, early client close, flush-per-frame and 6 KB unary over a rendezvous transport) a fault-free run yields the byte streams and frame edges; one case = (workload, faulted endpoint, fault kind in {write error, partial write, read error, data+error, peer EOF, peer reset, local close}, byte offset, read chunking). quick: every frame edge, edge-1, edge+1, offset 0 and 8 seeded interior offsets per direction with one seeded chunking; thorough: every byte offset x all three chunkings. Plus raw-server cases: a raw peer writes a seeded prefix (whole, frame edge, any byte) of a valid client session that may contain RPCs abandoned before their invoke (metadata and/or cancel only), then the transport ends (read error, EOF, reset, peer close); ServeOne must return without anybody telling it. Non-trivial: the fault actually fired. Distinct: by case tuple.",
+		Rule:     "fault points: for each of 12 deterministic workloads (unary small / multi-frame / with metadata / failing handler, client-, server-, bidirectional streams, failing bidi, two RPCs on one connection, early client close, flush-per-frame and 6 KB unary over a rendezvous transport) a fault-free run yields the byte streams and frame edges; one case = (workload, faulted endpoint, fault kind in {write error, partial write, read error, data+error, peer EOF, peer reset, local close}, byte offset, read chunking). quick: every frame edge, edge-1, edge+1, offset 0 and 8 seeded interior offsets per direction with one seeded chunking; thorough: every byte offset x all three chunkings. Plus raw-server cases: a raw peer writes a seeded prefix (whole, frame edge, any byte) of a valid client session that may contain RPCs abandoned before their invoke (metadata and/or cancel only), then the transport ends (read error, EOF, reset, peer close); ServeOne must return without anybody telling it. Plus finish-race cases: the contexts of the first RPCs are cancelled exactly while their streams are being marked finished (parked at the hook), then a last RPC has receives pending on both sides when the transport is reset or closed. Non-trivial: the fault actually fired. Distinct: by case tuple.",
 		Assumptions: []string{
 			"fault model is fail-stop: after the fault the endpoint's reads and writes both fail and the peer sees EOF or a reset after the surviving bytes; a transport whose writes fail while its reads stay healthy forever is not modelled (by design write errors are returned to the caller and the read error terminates the manager)",
 			"'every later call fails' is checked by issuing a send and a receive on each old stream, an Invoke and a NewStream after the process came to rest",
